@@ -269,7 +269,7 @@ def check_env(plan: Dict[str, Any], execution: Dict[str, Any], res: Result) -> N
     for sess, sx in zip(plan["sessions"], execution["sessions"]):
         results = driver.op_results(sx)
         per_session.append(results)
-    if any(len(r) < 2 or r[0]["ok"] is None or r[1]["ok"] is None for r in per_session):
+    if any(len(r) < 2 or r[0]["ok"] is None for r in per_session):
         return
     base = per_session[0]
     # loads must agree: all succeed with equal canonical frames, or all raise the same class
@@ -291,6 +291,8 @@ def check_env(plan: Dict[str, Any], execution: Dict[str, Any], res: Result) -> N
             res.violate("C11", "env-dependence/loaded-frames", {"session": si}, si, 0)
         if r[0]["obs"]["min_ts"] != base[0]["obs"]["min_ts"]:
             res.violate("C11", "env-dependence/min_ts", {"session": si}, si, 0)
+    if any(r[1]["ok"] is None for r in per_session):
+        return
     if not all(r[1]["ok"] for r in per_session):
         if any(r[1]["ok"] for r in per_session):
             res.violate("C11", "env-dependence/battery-outcome", {"outcomes": [(r[1]["ok"], r[1]["exc"]) for r in per_session]})
